@@ -206,6 +206,8 @@ ORACLES = {
                     nvars=1, depth=2, neg=True, nested_neg=True, falsy=True, vocab=['truthy', 'truth', 'cmp', 'name'])],
     'C02': [_oracle('two variables, join conditions', 150, 2000, nvars=2, depth=2, neg=False, vocab=['cmp', 'name']),
             _oracle('three variables', 40, 600, nvars=3, depth=2, neg=False, vocab=['cmp'], n=2),
+            _oracle('two variables, literal-free conditions (result caches are hit)', 150, 2000, nvars=2, depth=3, neg=True,
+                    vocab=['cmp', 'name'], nolit=True),
             _oracle('two / three variables, a proper subset selected (set of projected rows)', 150, 2000, nvars=2, depth=3, neg=False,
                     vocab=['cmp', 'name'], project=True),
             _oracle('three variables, a proper subset selected', 60, 800, nvars=3, depth=2, neg=False, vocab=['cmp', 'name'], n=2,
@@ -247,7 +249,9 @@ ORACLES = {
     'C17': [_oracle('concatenate value and membership / negated membership against it', 200, 3000, kind='concat'),
             _oracle('concatenate with falsy elements', 100, 1500, kind='concat', falsy=True),
             _oracle('concatenate over a flatten of nested collections', 100, 1500, kind='concat', nested=True)],
-    'C18': [_oracle('meaning preserving rewrites (swap, re-associate, mirror, contains/in_, declaration order, domain permutation)', 250, 4000, kind='rewrite')],
+    'C18': [_oracle('meaning preserving rewrites (swap, re-associate, mirror, contains/in_, declaration order, domain permutation)', 250, 4000, kind='rewrite'),
+            _oracle('meaning preserving rewrites of literal-free conditions (result caches are hit)', 250, 4000, kind='rewrite', nolit=True),
+            _oracle('re-association / re-ordering of chains of three disjuncts and conjuncts over two variables', 150, 3000, kind='chain3', nolit=True)],
     'C11': [_oracle('infer(entity(T(a=x, b=y|y.attr, tag=const), conditions)): constants (None, falsy, iterable), falsy classes, '
                     'bodies with disjunction / negation, zero-solution bodies', 250, 4000, kind='infer'),
             _oracle('inference, conjunctive bodies only', 100, 1500, kind='infer', neg=False, depth=1)],
@@ -266,6 +270,10 @@ ORACLES = {
             _oracle('histories (result cache off)', 100, 1500, kind='history', caching=False),
             _oracle('histories over a domain that lists an object twice', 100, 1500, kind='history', duplicates=True)],
     'C05': [_oracle('result cache on vs off, first evaluation and re-evaluation', 250, 4000, kind='cache'),
+            _oracle('result cache on vs off, literal-free conditions (the ones that hit the operator caches)', 250, 4000, kind='cache',
+                    nolit=True),
+            _oracle('two variables, literal-free conditions with disjunctions, cache on, evaluated twice', 200, 3000, nvars=2, depth=3,
+                    neg=True, vocab=['cmp', 'name'], nolit=True),
             _oracle('rule trees over two variables, result cache on (reference = cache-off reading)', 150, 3000, kind='rdrtree',
                     nvars=2, rules=4, depth=2, n=3),
             _oracle('conditions on a flattened element, result cache on (reference = cache-off reading)', 150, 3000, kind='flatten_elem')],
